@@ -660,6 +660,21 @@ def run_variant(c, idx, v):
                 t = tree_bytes(tgt)
                 if t != a:
                     viol.append(("outdir:%s-differs" % form, "fixgen -o %s produced a different package" % od))
+            # regeneration into a directory that already holds an earlier, longer generation of the same
+            # files: the result depends on the schema alone, not on what the directory held before
+            used = os.path.join(mod, "q", "p")
+            os.makedirs(used)
+            for f, content in a.items():
+                open(os.path.join(used, f), "wb").write(content + b"\n// tail of an earlier generation\nvar _ = 1 +\n" * 3)
+            rc4, out4 = gen("q/p", mod)
+            if rc4 != 0:
+                viol.append(("outdir:used-directory-rejected", out4[-400:]))
+            elif tree_bytes(used) != a:
+                t = tree_bytes(used)
+                bad = sorted(f for f in a if t.get(f) != a[f])
+                viol.append(("outdir:used-directory-differs", "regenerating over existing files left %d file(s) different from a fresh generation, e.g. %s (%d bytes instead of %d)" % (
+                    len(bad), bad[0] if bad else "?", len(t.get(bad[0], b"")) if bad else 0, len(a[bad[0]]) if bad else 0)))
+            shutil.rmtree(os.path.join(mod, "q"), ignore_errors=True)
             shutil.rmtree(os.path.join(mod, "a"), ignore_errors=True)
             shutil.rmtree(os.path.join(mod, "abs"), ignore_errors=True)
             shutil.rmtree(os.path.join(mod, "y"), ignore_errors=True)
